@@ -89,11 +89,15 @@ def register2(reg):
 
 def register3(reg):
     MEMO_OLD = '(old_self._memos.mvals[key] if old_self._memos.mkeys[key] else o_none())'
-    contract(reg, f'{E}:ParserEngine.set_left_recursion_guard', ['C03', 'C04'], {'self': 'Ctx', 'key': 'MemoKeyR'}, ret='None',
+    contract(reg, f'{E}:ParserEngine.set_left_recursion_guard', ['C03', 'C04', 'C06'], {'self': 'Ctx', 'key': 'MemoKeyR'}, ret='None',
              modifies=['self._memos'], requires=REQ + ['memo_ok(self._memos, self.textlen)'],
              ensures=['memo_ok(self._memos, self.textlen)', ('property', 'implies(not self._active_config.left_recursion, self._memos.mkeys == old_self._memos.mkeys and self._memos.mvals == old_self._memos.mvals)'),
                       ('property', 'implies(self._active_config.left_recursion and key.ruleinfo.is_memo and not key.ruleinfo.no_memo and self._active_config.memoization, '
-                                   'self._memos.mkeys[key] and is_failure(self._memos.mvals[key], "FailedLeftRecursion"))')])
+                                   'self._memos.mkeys[key] and is_failure(self._memos.mvals[key], "FailedLeftRecursion"))'),
+                      # the guard goes through memoize(): a rule that keeps no results (@nomemo, memoization off) gets none -- it would
+                      # never be replaced by the rule's outcome and be replayed as the rule's result (C04, C06)
+                      ('property', 'implies(not (key.ruleinfo.is_memo and not key.ruleinfo.no_memo and self._active_config.memoization), '
+                                   'self._memos.mkeys == old_self._memos.mkeys and self._memos.mvals == old_self._memos.mvals)')])
     # rule_call: the caller's frames are untouched on every TatSu exit; a remembered outcome is replayed
     # without running the body; FailedSemantics becomes a parse failure (C06); the key identifies the callee (C04)
     contract(reg, f'{E}:ParserEngine.rule_call', ['C01', 'C03', 'C04', 'C06', 'C11', 'C12'],
